@@ -38,15 +38,23 @@ class FakeEq:
 
 
 def task(i, fail, callno, *, equilibrium, psi, f_R, f_Z, tag):
+    if fail == 2:
+        # what a refine_timeout expiry raises inside a task: derives from BaseException
+        from func_timeout import FunctionTimedOut
+
+        raise FunctionTimedOut("task %d of call %d timed out" % (i, callno))
     if fail:
         raise ValueError("task %d of call %d failed" % (i, callno))
     return ("r", callno, i, tag, psi(i, 0.5))
 
 
 def calls_args(calls):
-    return [
-        [(i, i in fails, c) for i in range(n)] for c, (n, fails) in enumerate(calls)
-    ]
+    """calls: list of (n, fails); fails holds task indices that raise ValueError, or
+    negative numbers -(i+1) for tasks that raise FunctionTimedOut"""
+    out = []
+    for c, (n, fails) in enumerate(calls):
+        out.append([(i, 2 if -(i + 1) in fails else (1 if i in fails else 0), c) for i in range(n)])
+    return out
 
 
 def run_calls(pm, calls):
@@ -55,7 +63,11 @@ def run_calls(pm, calls):
         try:
             r = pm(task, args_list, tag="t")
             obs.append(("ok", tuple(r)))
-        except Exception as e:  # noqa: BLE001
+        except sched.Abort:
+            raise
+        except BaseException as e:  # noqa: BLE001 - FunctionTimedOut is a BaseException
+            if type(e).__name__ in ("KeyboardInterrupt", "SystemExit", "GeneratorExit"):
+                raise
             obs.append(("exc", type(e).__name__))
     return tuple(obs)
 
@@ -193,6 +205,8 @@ def failsets(n, maxfail):
     out = [()]
     for k in range(1, maxfail + 1):
         out += list(itertools.combinations(range(n), k))
+    # a single task that times out (FunctionTimedOut, a BaseException) at each position
+    out += [(-(i + 1),) for i in range(n)]
     return out
 
 
@@ -250,7 +264,10 @@ def run(ctx):
             for b in res["bad"]:
                 nw, calls, d = res["cell"]
                 anyfail = any(f for _, f in calls)
-                if b["kind"] == "blocked" and anyfail:
+                timeout_kind = any(x < 0 for _, f in calls for x in f)
+                if b["kind"] == "blocked" and timeout_kind:
+                    sig = "task raises FunctionTimedOut (BaseException) | parent blocks forever on result_queue.get"
+                elif b["kind"] == "blocked" and anyfail:
                     sig = "task raises | parent blocks forever on result_queue.get"
                 elif b["kind"] == "blocked":
                     sig = "no failing task | blocks forever"
